@@ -331,6 +331,25 @@ func (z *Zipper) compareOps(a, b ssa.Instruction) bool {
 			return iA.Call.Method.Name() == iB.Call.Method.Name()
 		}
 		return true
+	case *ssa.Go:
+		// a spawned or deferred call through an interface names its method like a plain call does
+		iB := b.(*ssa.Go)
+		if iA.Call.IsInvoke() != iB.Call.IsInvoke() {
+			return false
+		}
+		if iA.Call.IsInvoke() {
+			return iA.Call.Method.Name() == iB.Call.Method.Name()
+		}
+		return true
+	case *ssa.Defer:
+		iB := b.(*ssa.Defer)
+		if iA.Call.IsInvoke() != iB.Call.IsInvoke() {
+			return false
+		}
+		if iA.Call.IsInvoke() {
+			return iA.Call.Method.Name() == iB.Call.Method.Name()
+		}
+		return true
 	case *ssa.Field:
 		iB := b.(*ssa.Field)
 		return iA.Field == iB.Field
